@@ -240,6 +240,9 @@ WEIGHT_UNITS = [
 ] + [
     plain("c04_tree_f32_invalid_weight_rejected", "weights", ["C04", "C09"], "WeightedTreeIndex<f32>::push / update", "src/weighted/weighted_tree.rs", [("w0", "f32"), ("w1", "f32"), ("x", "f32")],
           "2-node f32 tree, every NaN or negative weight: push/update return Err(InvalidWeight) and leave the tree unchanged", kind="bounded", bound="tree of exactly 2 nodes", timeout=900),
+]
+WEIGHT_UNITS[-1]["tier_by_prop"] = {"C09": "thorough"}      # 2-4 minutes: quick for C04, thorough for C09 (whose quick tier is the 15 s Verus proof)
+WEIGHT_UNITS += [
     dict(plain("kf_tree_f32_rounding_panics", "weights", ["C10"], "WeightedTreeIndex<f32>::try_sample", "src/weighted/weighted_tree.rs", [],
                "pinned known finding: WeightedTreeIndex::<f32>::new([2.5449841e19, 3.5183273e16]) is_valid() but try_sample panics for word 0xffffffff"), expect="refuted"),
     dict(plain("kf_tree_f32_subnormal_total_panics", "weights", ["C10"], "WeightedTreeIndex<f32>::try_sample", "src/weighted/weighted_tree.rs", [],
